@@ -437,3 +437,9 @@ def run(ctx):
     round4.check_flush_markers_any_state(ctx, "R2.9")
     round4.share(ctx, "R2.9", "C03", lambda i_: i_["rule"] == "R3.4" and i_["inst"].startswith("parse_clkoff_entry:"), "clock-table:",
                  "a valid trace of hosts named node1 and node10 is rejected", 1)
+    ctx.rule("R2.10", "the emulator accepts the versions a conformant program writes: version_is_compatible ignores the "
+             "patch number and accepts a lower or equal minor (C14 R14.1's exhaustive evaluation of the emulator-side "
+             "sibling)")
+    from rules import round5
+    round5.share(ctx, "R2.10", "C14", lambda i_: i_["rule"] == "R14.1" and i_["inst"].startswith("version_is_compatible"),
+                 "version:", "a trace whose required model version is compatible is rejected", 50)
